@@ -40,8 +40,29 @@ func (h history) key() string {
 // value builds the concrete value that revision r gives object n.  Values of
 // the same object in different revisions differ, so that the revision an
 // answer comes from can be told from the answer.
-func value(rng *rand.Rand, n, r int, compressed bool) obj.Value {
+func value(rng *rand.Rand, n, r int, compressed, encrypted bool) obj.Value {
 	mark := obj.Int(1000*r + n)
+	if encrypted {
+		// every value holds a string or is a stream, so that the key the
+		// reader uses shows in the value it returns
+		str := obj.Str(fmt.Sprintf("v%d_%d%s", r, n, string(ser.RandomString(rng))))
+		k := rng.Intn(5)
+		if compressed && k == 4 {
+			k = 0
+		}
+		switch k {
+		case 0:
+			return obj.Dict{"V": mark, "S": str, "A": obj.Array{ser.RandomString(rng), obj.Dict{"T": ser.RandomString(rng)}}}
+		case 1:
+			return obj.Array{mark, str, ser.RandomString(rng)}
+		case 2:
+			return str
+		case 3:
+			return obj.Dict{"V": mark, "E": obj.Str(""), "S": str}
+		default:
+			return &obj.Stream{Dict: obj.Dict{"V": mark, "S": str}, Raw: append([]byte(fmt.Sprintf("data %d %d ", r, n)), ser.RandomBody(rng, false)...)}
+		}
+	}
 	refs := []obj.Ref{{Num: uint32(n)}, {Num: 1, Gen: 1}, {Num: 2}, {Num: 3, Gen: 65535}, {Num: 900}}
 	k := rng.Intn(8)
 	if compressed && k == 7 {
@@ -81,15 +102,22 @@ type built struct {
 	values map[[2]int]obj.Value // (n, r) -> value
 	cat    uint32
 	info   uint32
+	crypt  *cryptSetup
 }
 
 // concretise turns a model history into a document for the serialiser:
 // objects 1..N as the history says, plus a catalog (N+1), a page tree root
 // (N+2) and an information dictionary (N+3) written by the first revision.
-func concretise(h history, rng *rand.Rand) *built {
+func concretise(h history, rng *rand.Rand, cs *cryptSetup) *built {
 	n := h.nObj()
 	b := &built{doc: &ser.Doc{Version: []string{"1.5", "1.6", "1.7", "2.0"}[rng.Intn(4)]}, values: map[[2]int]obj.Value{},
-		cat: uint32(n + 1), info: uint32(n + 3)}
+		cat: uint32(n + 1), info: uint32(n + 3), crypt: cs}
+	if cs != nil {
+		b.doc.Version = cs.version
+		if cs.indirect {
+			b.doc.EncryptRef = obj.Ref{Num: uint32(n + 4)}
+		}
+	}
 	pages := uint32(n + 2)
 	for k, rv := range h {
 		r := k + 1
@@ -108,7 +136,7 @@ func concretise(h history, rng *rand.Rand) *built {
 			case "keep":
 			case "def", "defc", "hdef", "hdefc":
 				comp := op == "defc" || op == "hdefc"
-				v := value(rng, i+1, r, comp)
+				v := value(rng, i+1, r, comp, cs != nil)
 				b.values[[2]int{i + 1, r}] = v
 				o := ser.Op{Num: num, Kind: ser.Define, Value: v, InObjStm: comp, Hidden: op == "hdef" || op == "hdefc"}
 				if _, isStream := v.(*obj.Stream); isStream {
@@ -127,6 +155,9 @@ func concretise(h history, rng *rand.Rand) *built {
 				ser.Op{Num: b.cat, Kind: ser.Define, Value: obj.Dict{"Type": obj.Name("Catalog"), "Pages": obj.Ref{Num: pages}}, InObjStm: inStm},
 				ser.Op{Num: pages, Kind: ser.Define, Value: obj.Dict{"Type": obj.Name("Pages"), "Kids": obj.Array{}, "Count": obj.Int(0)}, InObjStm: inStm && rng.Intn(2) == 0},
 				ser.Op{Num: b.info, Kind: ser.Define, Value: obj.Dict{"Title": obj.Str("history")}})
+			if cs != nil && cs.indirect {
+				sr.Ops = append(sr.Ops, ser.Op{Num: b.doc.EncryptRef.Num, Kind: ser.Define, Value: cs.dict})
+			}
 		}
 		sr.Trailer = trailerOf(b, r)
 		b.doc.Revisions = append(b.doc.Revisions, sr)
@@ -135,6 +166,18 @@ func concretise(h history, rng *rand.Rand) *built {
 }
 
 func trailerOf(b *built, r int) obj.Dict {
+	d := trailerBase(b, r)
+	if b.crypt != nil {
+		if b.crypt.indirect {
+			d["Encrypt"] = b.doc.EncryptRef
+		} else {
+			d["Encrypt"] = b.crypt.dict
+		}
+	}
+	return d
+}
+
+func trailerBase(b *built, r int) obj.Dict {
 	return obj.Dict{
 		"Root":   obj.Ref{Num: b.cat},
 		"Info":   obj.Ref{Num: b.info},
@@ -154,6 +197,7 @@ type histRecord struct {
 	Open    bool     `json:"open"`
 	Probes  [][3]int `json:"probes"` // n, g, result: revision number, 0 null, -1 error, -2 unknown value
 	Trailer int      `json:"trailer"`
+	Crypt   string   `json:"crypt"`
 	// not judged: diagnostics
 	Err  string `json:"err,omitempty"`
 	Seed int64  `json:"seed"`
@@ -173,19 +217,34 @@ func probesFor(n int) []probe {
 	return ps
 }
 
-func open(data []byte) (*pdf.Reader, error) {
-	return pdf.NewReader(bytes.NewReader(data), int64(len(data)), &pdf.ReaderOptions{ErrorHandling: pdf.ErrorHandlingStop})
+func open(data []byte) (*pdf.Reader, error) { return openPW(data, "") }
+
+func openPW(data []byte, password string) (*pdf.Reader, error) {
+	return pdf.NewReader(bytes.NewReader(data), int64(len(data)), &pdf.ReaderOptions{ErrorHandling: pdf.ErrorHandlingStop, Password: password})
 }
 
 // fromReader converts what Reader.Get returned to the harness's value model
 // (streams with their raw data).
-func fromReader(v pdf.Native) (obj.Value, error) {
+func fromReader(r *pdf.Reader, v pdf.Native, encrypted bool) (obj.Value, error) {
 	if s, ok := v.(*pdf.Stream); ok {
 		d, _ := shared.FromPDF(s.Dict).(obj.Dict)
 		if d == nil {
 			d = obj.Dict{}
 		}
-		raw, err := io.ReadAll(s.NewReader())
+		var raw []byte
+		var err error
+		if encrypted {
+			// the streams of the histories have no /Filter: DecodeStream
+			// only decrypts
+			var rc io.ReadCloser
+			rc, err = pdf.DecodeStream(r, nil, s)
+			if err == nil {
+				raw, err = io.ReadAll(rc)
+				rc.Close()
+			}
+		} else {
+			raw, err = io.ReadAll(s.NewReader())
+		}
 		if err != nil {
 			return nil, err
 		}
@@ -197,8 +256,13 @@ func fromReader(v pdf.Native) (obj.Value, error) {
 // observe opens the rendered history with the real reader and asks for every
 // probe reference.
 func observe(h history, b *built, data []byte, size uint32, seed int64) histRecord {
-	rec := histRecord{T: "hist", H: h, Seed: seed, Probes: [][3]int{}}
-	r, err := open(data)
+	rec := histRecord{T: "hist", H: h, Seed: seed, Probes: [][3]int{}, Crypt: "none"}
+	pw := ""
+	if b.crypt != nil {
+		rec.Crypt = b.crypt.name
+		pw = b.crypt.password
+	}
+	r, err := openPW(data, pw)
 	if err != nil {
 		rec.Err = err.Error()
 		return rec
@@ -221,7 +285,7 @@ func observe(h history, b *built, data []byte, size uint32, seed int64) histReco
 		case v == nil:
 			res = 0
 		default:
-			got, err := fromReader(v)
+			got, err := fromReader(r, v, b.crypt != nil)
 			if err != nil {
 				res = -1
 				rec.Err = err.Error()
@@ -242,7 +306,7 @@ func observe(h history, b *built, data []byte, size uint32, seed int64) histReco
 	tr := shared.FromPDF(r.GetMeta().Trailer)
 	td, _ := tr.(obj.Dict)
 	for k := 1; k <= len(h); k++ {
-		want := trailerOf(b, k)
+		want := trailerBase(b, k)
 		ok := td != nil
 		for key, w := range want {
 			if ok && !obj.Equal(td[key], w) {
